@@ -3,6 +3,11 @@ import warnings
 from Solverz.solvers.daesolver.utilities import *
 from Solverz.solvers.daesolver.rodas.param import Rodas_param
 
+# verification hook (SOLVERZ_VERIF=1): one record per attempted step; no effect when the variable is unset
+import os as _os
+_VERIF = _os.environ.get('SOLVERZ_VERIF') == '1'
+_verif_trace = []
+
 
 @dae_io_parser
 def Rodas(dae: nDAE,
@@ -194,6 +199,11 @@ def Rodas(dae: nDAE,
             err = 1.0
             dtnew = dt
 
+        if _VERIF:
+            _verif_trace.append(dict(t=float(t), dt=float(dt), err=float(err), fix_h=bool(opt.fix_h),
+                                     fac0=(float(opt.f_savety / (err ** (1 / rparam.pord))) if not opt.fix_h else 1.0),
+                                     dtnew=float(dtnew), facmax=float(facmax), reject=int(reject),
+                                     last_step=bool(last_step), hmin=float(hmin), hmax=float(hmax)))
         if err <= 1.0:
             reject = 0
             told = t
